@@ -15,7 +15,7 @@ T=$(mktemp -d -t takeseed-XXXXXX); trap 'rm -rf "$T"' EXIT
 git clone -q /repo "$T/repo"; mkdir -p "$T/repo/seed"; cp -r "$SD"/. "$T/repo/seed/"
 cd "$T/repo"
 # demos write temporary files under /tmp/seed/work-<ID>
-mkdir -p /tmp/seed/work-$PROP
+mkdir -p /tmp/seed/work-$PROP /tmp/seed/work-${PROP}b
 res="prop=$PROP n=$N"
 bash seed/demo$N.sh >"$T/clean.log" 2>&1; rc_clean=$?
 git apply seed/patch$N.diff || { echo "$res PATCH-DOES-NOT-APPLY"; exit 1; }
@@ -36,7 +36,7 @@ for p in $PROP "$@"; do
 done
 if [ $ok = 1 ]; then
   tag=$(python3 -c "import json,re;m=json.load(open('$SD/meta$N.json'));print(re.sub(r'[^a-z0-9]+','-',m['summary'].lower())[:40].strip('-'))" 2>/dev/null || echo change$N)
-  D="$V/seeded/$PROP-$N-$tag"; mkdir -p "$D"
+  D="$V/seeded/$PROP-${ROUND:-}$N-$tag"; mkdir -p "$D"
   cp "$SD/patch$N.diff" "$D/patch.diff"; cp "$SD/demo$N.sh" "$D/demo.sh"
   for f in "$SD"/*; do case "$(basename $f)" in patch*|demo*.sh|meta*) ;; *) cp -r "$f" "$D/";; esac; done
   python3 - "$SD/meta$N.json" "$D/meta.json" "$PROP" "$N" "$det" "$tests" <<'PY'
